@@ -128,7 +128,7 @@ def r16b(ctx, rep, cr):
     lv = [A.live_positions(f, g.acq, g.kills, must=True) for g in gs]
     sites = A.calls_to(f, CH + 'height') + A.calls_to(f, CH + 'tip_hash') + A.calls_to(f, CH + 'store_block') + \
         A.calls_to(f, CH + 'save_height') + A.calls_to(f, ('re', r'AtomicU64::store$'))
-    rep.floor('R16b', 'height/tip read-write sites in append', len(sites), 4)
+    rep.floor('R16b', 'height/tip read-write sites in append', len(sites), 3)
     bad = [c for c in sites if not any(A.live_at(l, (c.bb, len(f.bbs[c.bb]['s']))) for l in lv)]
     if bad:
         rep.violation('R16b', f, 'outside-lock', f.loc(bad[0].line), '%s runs while append_lock is not held: two appends can read the same height' % lib.short(bad[0].resolved))
@@ -214,7 +214,7 @@ def r16d(ctx, rep, cr):
         return
     defs = A.Defs(f)
     upd = A.calls_to(f, ('re', r'Digest>::update$|Update>::update$|::update$'))
-    rep.floor('R16d', 'hasher updates', len(upd), 4)
+    rep.floor('R16d', 'hasher updates', len(upd), 2)
     # loops: IntoIterator::into_iter calls whose iterator's next() dominates an update
     iters = [c for c in A.calls(f) if re.search(r'IntoIterator>::into_iter$', c.generic) or re.search(r'IntoIterator>::into_iter$', c.resolved)]
     sorts = A.calls_to(f, ('re', r'slice::<impl \[T\]>::sort(_unstable)?$|::sort$|::sort_unstable$|::sort_by$|::sort_by_key$'))
